@@ -311,6 +311,13 @@ func (fc *FuncCtx) storeLoc(l *Loc, st *State, v string) {
 			nv = rebuildPath(fmt.Sprintf("(select (select %s %s) %s)", h, l.ref, l.idx), l.path, v)
 		}
 		st.set(l.heap, fmt.Sprintf("(store %s %s (store (select %s %s) %s %s))", h, l.ref, h, l.ref, l.idx, nv))
+		if l.sl != "" {
+			// the same update in the elem_X vocabulary (frame for the other elements of this slice)
+			ef := e.elemFn(arrayElemSort(arrayElemSort(e.heapSort(l.heap))))
+			nh := st.get(l.heap)
+			fc.q.assume(fmt.Sprintf("(= (%s %s %s %s) %s)", ef, nh, l.sl, l.si, nv))
+			fc.q.assume(fmt.Sprintf("(forall ((k Int)) (! (=> (not (= k %s)) (= (%s %s %s k) (%s %s %s k))) :pattern ((%s %s %s k))))", l.si, ef, nh, l.sl, ef, h, l.sl, ef, nh, l.sl))
+		}
 	case locObj:
 		info := e.sorts.structInfoOf(l.gt)
 		if len(l.path) > 0 {
